@@ -753,14 +753,28 @@ def gen_sites() -> typing.Tuple[bool, str]:
     except (Unsupported, SyntaxError, OSError) as ex:
         gen.write_if_changed(out_path, head + '(* store scanner failed closed: %s *)\n' % str(ex).replace('*)', '* )'))
         return False, 'store scanner failed closed: %s' % ex
+    try:
+        mobjs = scan_module_objects()
+        ekws = scan_env_kwargs()
+    except (Unsupported, SyntaxError, OSError) as ex:
+        gen.write_if_changed(out_path, head + '(* module-object scanner failed closed: %s *)\n' % str(ex).replace('*)', '* )'))
+        return False, 'module-object / Environment-argument scanner failed closed: %s' % ex
+    mrows = ['  {| mo_file := %s;\n     mo_name := %s; mo_kind := %s;\n     mo_made_by := %s; mo_mutated := %s;\n     mo_escapes := [%s] |}'
+             % (_coq_str(x['file']), _coq_str(x['name']), x['vkind'], _coq_str(x['made_by']), 'true' if x['mutated'] else 'false',
+                '; '.join(_coq_str(e) for e in x['escapes'])) for x in mobjs]
+    erows = ['  {| ek_file := %s; ek_where := %s;\n     ek_kw := %s; ek_vkind := %s |}'
+             % (_coq_str(x['file']), _coq_str(x['where']), _coq_str(x['kw']), x['vkind']) for x in ekws]
     srows = ['  {| st_file := %s;\n     st_fn := %s;\n     st_target := %s; st_root := %s; st_phase := %s |}'
              % (_coq_str(x['file']), _coq_str(x['fn']), _coq_str(x['target']), x['root'], x['phase']) for x in stores]
-    text = ('Definition g_stores : list store :=\n [\n' + ';\n'.join(srows) + '\n ].\n\n'
+    text = ('Definition g_modobjs : list modobj :=\n [\n' + ';\n'.join(mrows) + '\n ].\n\n'
+            'Definition g_env_kwargs : list envkw :=\n [\n' + ';\n'.join(erows) + '\n ].\n\n'
+            'Definition g_stores : list store :=\n [\n' + ';\n'.join(srows) + '\n ].\n\n'
             'Definition g_sites : list site :=\n [\n' + ';\n'.join(rows) + '\n ].\n\n'
             'Definition g_uniq_filters : list uniq_filter :=\n [\n' + ';\n'.join(frows) + '\n ].\n')
     gen.write_if_changed(out_path, head + text)
-    return True, 'ok (%d memo sites, %d stores on long-lived objects of which %d in the render phase, %d unique-name filters)' % (
-        len(sites), len(stores), sum(1 for x in stores if x['phase'] == 'SRender'), len(filters))
+    return True, ('ok (%d memo sites, %d stores on long-lived objects of which %d in the render phase, %d module/class-level objects, '
+                  '%d jinja2 Environment arguments, %d unique-name filters)') % (
+        len(sites), len(stores), sum(1 for x in stores if x['phase'] == 'SRender'), len(mobjs), len(ekws), len(filters))
 
 
 GENERATORS['sites'] = gen_sites
@@ -929,6 +943,7 @@ def scan_stores() -> typing.List[dict]:
                 elif isinstance(f, ast.Name) and f.id in ('setattr', 'delattr') and n.args:
                     nm = n.args[1].value if len(n.args) > 1 and isinstance(n.args[1], ast.Constant) else '*'
                     add(n.args[0], '.<%s %s>' % (f.id, nm))
+    out.extend(_param_mutations(funcs))
     seen, res = set(), []
     for s in out:
         k = (s['file'], s['fn'], s['target'])
@@ -936,3 +951,252 @@ def scan_stores() -> typing.List[dict]:
             seen.add(k)
             res.append(s)
     return res
+
+
+COPYING_CALLS = {'list', 'dict', 'set', 'tuple', 'frozenset', 'sorted', 'copy', 'deepcopy', 'OrderedDict', 'deque', 'str', 'join'}
+
+
+def _param_mutations(funcs) -> typing.List[dict]:
+    """In-place mutation of an object the CALLER owns, in any function INCLUDING __init__: `+=`/`|=`/..., item store, del, mutator
+    call on a parameter (other than self/cls), on a local alias of a parameter, or on a self attribute that was bound to a
+    parameter in the same function -- `x = p`, `x = p or []`, `x = p if c else d` alias p; `list(p)`, `p.copy()`, `p + q`,
+    `[*p]`, a comprehension do not.  The object may be shared (a class-level list passed by reference): phase SRender, so the
+    store has to be classified by hand whatever the function is."""
+    res: typing.List[dict] = []
+
+    def may_be(e: ast.expr, names: typing.Set[str]) -> typing.Optional[str]:
+        """the parameter/alias name e may evaluate to (identity, not a copy)"""
+        if isinstance(e, ast.Name) and e.id in names:
+            return e.id
+        if isinstance(e, ast.BoolOp):
+            for v in e.values:
+                r = may_be(v, names)
+                if r:
+                    return r
+        if isinstance(e, ast.IfExp):
+            return may_be(e.body, names) or may_be(e.orelse, names)
+        if isinstance(e, ast.NamedExpr):
+            return may_be(e.value, names)
+        return None
+
+    for rel, qual, fn, _encl, _mg in funcs:
+        params = {a.arg: a for a in fn.args.args + fn.args.kwonlyargs + ([fn.args.vararg] if fn.args.vararg else [])
+                  + ([fn.args.kwarg] if fn.args.kwarg else []) if a.arg not in ('self', 'cls')}
+        shared = {n for n, a in params.items() if _annotation_kind(a.annotation) != 'PValue'}
+        if not shared:
+            continue
+        origin: typing.Dict[str, str] = {n: n for n in shared}          # local name -> parameter it may be
+        self_attr: typing.Dict[str, str] = {}                            # self attribute -> parameter it may be
+        body_nodes = list(ast.walk(fn))
+        for _ in range(2):                                               # aliases of aliases
+            for n in body_nodes:
+                if isinstance(n, (ast.Assign, ast.AnnAssign)) and n.value is not None:
+                    r = may_be(n.value, set(origin))
+                    for t in (n.targets if isinstance(n, ast.Assign) else [n.target]):
+                        if isinstance(t, ast.Name):
+                            if r:
+                                origin[t.id] = origin[r]
+                        elif r and isinstance(t, ast.Attribute) and isinstance(t.value, ast.Name) and t.value.id == 'self':
+                            self_attr[t.attr] = origin[r]
+
+        def owner(e: ast.expr) -> typing.Optional[typing.Tuple[str, str]]:
+            if isinstance(e, ast.Name) and e.id in origin:
+                return origin[e.id], e.id
+            if isinstance(e, ast.Attribute) and isinstance(e.value, ast.Name) and e.value.id == 'self' and e.attr in self_attr:
+                return self_attr[e.attr], 'self.' + e.attr
+            return None
+
+        def add(e: ast.expr, how: str):
+            o = owner(e)
+            if o:
+                res.append({'file': rel, 'fn': qual, 'target': '<param %s> via %s%s' % (o[0], o[1], how), 'root': 'RParam',
+                            'phase': 'SRender'})
+
+        for n in body_nodes:
+            if isinstance(n, ast.AugAssign):
+                add(n.target, ' ' + type(n.op).__name__ + '=')
+                if isinstance(n.target, ast.Subscript):
+                    add(n.target.value, '[] ' + type(n.op).__name__ + '=')
+            elif isinstance(n, (ast.Assign, ast.AnnAssign, ast.Delete)):
+                for t in (n.targets if isinstance(n, (ast.Assign, ast.Delete)) else [n.target]):
+                    if isinstance(t, ast.Subscript):
+                        add(t.value, '[]')
+                    elif isinstance(t, ast.Attribute) and not (isinstance(t.value, ast.Name) and t.value.id == 'self'):
+                        add(t.value, '.' + t.attr)
+            elif isinstance(n, ast.Call) and isinstance(n.func, ast.Attribute) and n.func.attr in STORE_MUTATORS:
+                add(n.func.value, '.%s()' % n.func.attr)
+    return res
+
+
+# =====================================================================================================================
+# Module-level / class-level OBJECTS (C10): every name bound at module or class scope of src/nunavut to something that is not
+# evidently immutable -- a dict/list/set literal or comprehension, or the result of ANY call that is not in the allow-list of
+# immutable constructors (so an instance of a class defined anywhere, a cache object, a compiled-template store ...) -- with
+# everything functions (including __init__) do with it: mutated?, passed to which callees / stored where (escapes), only read?
+# Plus: every keyword argument handed to the bundled jinja2 Environment constructor, with where its value comes from.
+# =====================================================================================================================
+IMMUTABLE_CONSTRUCTORS = {
+    'TypeVar', 'NewType', 'namedtuple', 'NamedTuple', 'frozenset', 'tuple', 'str', 'int', 'float', 'bool', 'bytes', 'compile',
+    'getLogger', 'Path', 'PurePath', 'PurePosixPath', 'PosixPath', 'property', 'cast', 'join', 'dirname', 'abspath', 'format',
+    'Version', 'parse', 'object', 'getenv', 'get_distribution', 'version', 'auto', 'Callable', 'Union', 'Optional'}
+READ_ONLY_CALLEES = {
+    'isinstance', 'issubclass', 'len', 'sorted', 'set', 'list', 'dict', 'tuple', 'frozenset', 'any', 'all', 'enumerate', 'zip', 'map',
+    'filter', 'min', 'max', 'sum', 'iter', 'next', 'reversed', 'repr', 'str', 'join', 'format', 'get', 'items', 'keys', 'values',
+    'copy', 'deepcopy', 'index', 'count', 'startswith', 'endswith', 'issubset', 'issuperset', 'union', 'intersection', 'difference',
+    'isdisjoint', 'debug', 'info', 'warning', 'error', 'print', 'id', 'hash', 'bool', 'getattr', 'hasattr', 'match', 'search',
+    'fullmatch', 'sub', 'split', 'findall', 'finditer', 'type'}
+ENV_KWARGS_ALLOWED = {'loader', 'extensions', 'autoescape', 'undefined', 'keep_trailing_newline', 'lstrip_blocks', 'trim_blocks',
+                      'auto_reload', 'cache_size'}
+
+
+def _callee_name(f: ast.expr) -> str:
+    return f.attr if isinstance(f, ast.Attribute) else (f.id if isinstance(f, ast.Name) else '?')
+
+
+def scan_module_objects() -> typing.List[dict]:
+    root_dir = os.path.join(gen.REPO, 'src', 'nunavut')
+    out: typing.List[dict] = []
+    for d, _, names in sorted(os.walk(root_dir)):
+        for n in sorted(names):
+            rel = os.path.relpath(os.path.join(d, n), root_dir).replace(os.sep, '/')
+            if not n.endswith('.py') or rel.startswith(SCAN_EXCLUDE):
+                continue
+            tree = ast.parse(open(os.path.join(d, n), encoding='utf-8').read(), filename=rel)
+            objs: typing.Dict[str, dict] = {}
+
+            def consider(prefix: str, st: ast.stmt):
+                if not isinstance(st, (ast.Assign, ast.AnnAssign)) or st.value is None:
+                    return
+                v = st.value
+                if _is_container_value(v) and not (isinstance(v, ast.Call)):
+                    kind = 'VLiteral'
+                    what = type(v).__name__
+                elif isinstance(v, ast.Call):
+                    cn = _callee_name(v.func)
+                    if cn in IMMUTABLE_CONSTRUCTORS:
+                        return
+                    kind = 'VContainerCall' if cn in CONTAINER_CALLS else 'VInstance'
+                    what = cn
+                else:
+                    return
+                for t in (st.targets if isinstance(st, ast.Assign) else [st.target]):
+                    if isinstance(t, ast.Name) and t.id != '__all__':
+                        objs[prefix + t.id] = {'file': rel, 'name': prefix + t.id, 'simple': t.id, 'vkind': kind, 'made_by': what,
+                                      'mutated': False, 'escapes': [], 'readers': 0}
+
+            for st in tree.body:
+                consider('', st)
+                if isinstance(st, ast.ClassDef):
+                    for b in st.body:
+                        consider(st.name + '.', b)
+            if not objs:
+                continue
+            mutated = _mutated_names(tree)
+            # uses inside functions (including __init__) and at module level after the binding
+            parents: typing.Dict[int, ast.AST] = {}
+            for node in ast.walk(tree):
+                for ch in ast.iter_child_nodes(node):
+                    parents[id(ch)] = node
+            for node in ast.walk(tree):
+                nm = None
+                simple = {x['simple'] for x in objs.values()}
+                if isinstance(node, ast.Name) and isinstance(node.ctx, ast.Load) and node.id in simple:
+                    nm = node.id
+                elif isinstance(node, ast.Attribute) and isinstance(node.ctx, ast.Load) and node.attr in simple \
+                        and isinstance(node.value, ast.Name):
+                    nm = node.attr
+                if nm is None:
+                    continue
+                par = parents.get(id(node))
+                for o in [x for x in objs.values() if x['simple'] == nm]:
+                    o['readers'] += 1
+                    if isinstance(par, ast.Call) and node in par.args:
+                        cn = _callee_name(par.func)
+                        if cn not in READ_ONLY_CALLEES:
+                            o['escapes'].append('arg of ' + cn)
+                    elif isinstance(par, ast.keyword):
+                        gp = parents.get(id(par))
+                        cn = _callee_name(gp.func) if isinstance(gp, ast.Call) else '?'
+                        if cn not in READ_ONLY_CALLEES:
+                            o['escapes'].append('%s= of %s' % (par.arg, cn))
+                    elif isinstance(par, ast.Return):
+                        o['escapes'].append('returned')
+                    elif isinstance(par, (ast.Assign, ast.AnnAssign)) and par.value is node:
+                        tg = par.targets if isinstance(par, ast.Assign) else [par.target]
+                        if any(isinstance(t, (ast.Attribute, ast.Subscript)) for t in tg):
+                            o['escapes'].append('stored in ' + ast.unparse(tg[0])[:40])
+                        elif any(isinstance(t, ast.Name) for t in tg):
+                            o['escapes'].append('aliased as ' + ast.unparse(tg[0])[:40])
+            for o in objs.values():
+                o['mutated'] = o['simple'] in mutated
+                out.append(o)
+    return out
+
+
+def scan_env_kwargs() -> typing.List[dict]:
+    """keyword arguments of every call of the bundled jinja2 Environment constructor made by src/nunavut: super().__init__(..)
+    inside a class that derives from Environment, and direct Environment(..) / SandboxedEnvironment(..) calls"""
+    root_dir = os.path.join(gen.REPO, 'src', 'nunavut')
+    out: typing.List[dict] = []
+    for d, _, names in sorted(os.walk(root_dir)):
+        for n in sorted(names):
+            rel = os.path.relpath(os.path.join(d, n), root_dir).replace(os.sep, '/')
+            if not n.endswith('.py') or rel.startswith(SCAN_EXCLUDE):
+                continue
+            tree = ast.parse(open(os.path.join(d, n), encoding='utf-8').read(), filename=rel)
+            imported = set()
+            assigned = set()
+            for st in tree.body:
+                if isinstance(st, (ast.Import, ast.ImportFrom)):
+                    imported.update((a.asname or a.name).split('.')[0] for a in st.names)
+                elif isinstance(st, (ast.FunctionDef, ast.ClassDef)):
+                    imported.add(st.name)
+                elif isinstance(st, (ast.Assign, ast.AnnAssign)):
+                    for t in (st.targets if isinstance(st, ast.Assign) else [st.target]):
+                        if isinstance(t, ast.Name):
+                            assigned.add(t.id)
+
+            def value_kind(v: ast.expr, params: typing.Set[str]) -> str:
+                if isinstance(v, ast.Constant):
+                    return 'EConst'
+                if isinstance(v, ast.Name):
+                    if v.id in params:
+                        return 'EParam'
+                    if v.id in assigned:
+                        return 'EGlobal'
+                    if v.id in imported:
+                        return 'EImported'
+                    return 'EOther'
+                if isinstance(v, ast.Call):
+                    return 'EFresh' if all(value_kind(a, params) in ('EConst', 'EParam', 'EImported', 'EFresh')
+                                           for a in list(v.args) + [k.value for k in v.keywords]) else 'EOther'
+                if isinstance(v, (ast.Tuple, ast.List)):
+                    return 'EFresh' if all(value_kind(a, params) in ('EConst', 'EParam', 'EImported', 'EFresh') for a in v.elts) else 'EOther'
+                return 'EOther'
+
+            for cls in [c for c in ast.walk(tree) if isinstance(c, ast.ClassDef)]:
+                is_env = any((isinstance(b, ast.Name) and b.id.endswith('Environment')) or
+                             (isinstance(b, ast.Attribute) and b.attr.endswith('Environment')) for b in cls.bases)
+                for fn in [f for f in cls.body if isinstance(f, ast.FunctionDef)]:
+                    params = {a.arg for a in fn.args.args + fn.args.kwonlyargs}
+                    for c in ast.walk(fn):
+                        if not isinstance(c, ast.Call):
+                            continue
+                        f = c.func
+                        sup = (isinstance(f, ast.Attribute) and f.attr == '__init__' and isinstance(f.value, ast.Call)
+                               and isinstance(f.value.func, ast.Name) and f.value.func.id == 'super')
+                        direct = _callee_name(f) in ('Environment', 'SandboxedEnvironment', 'NativeEnvironment')
+                        if (sup and is_env) or direct:
+                            if c.args or any(k.arg is None for k in c.keywords):
+                                raise Unsupported('%s %s.%s: Environment constructed with positional or ** arguments' % (rel, cls.name, fn.name))
+                            for k in c.keywords:
+                                out.append({'file': rel, 'where': cls.name + '.' + fn.name, 'kw': k.arg, 'vkind': value_kind(k.value, params)})
+            for fn in [f for f in tree.body if isinstance(f, ast.FunctionDef)]:
+                params = {a.arg for a in fn.args.args + fn.args.kwonlyargs}
+                for c in ast.walk(fn):
+                    if isinstance(c, ast.Call) and _callee_name(c.func) in ('Environment', 'SandboxedEnvironment', 'NativeEnvironment'):
+                        if c.args or any(k.arg is None for k in c.keywords):
+                            raise Unsupported('%s %s: Environment constructed with positional or ** arguments' % (rel, fn.name))
+                        for k in c.keywords:
+                            out.append({'file': rel, 'where': fn.name, 'kw': k.arg, 'vkind': value_kind(k.value, params)})
+    return out
